@@ -226,14 +226,16 @@ SerB == [ Base EXCEPT !.sel = <<"n","f">>, !.pos = <<"p">>, !.npd = 1, !.dflt = 
 SerC == [ Base EXCEPT !.sel = <<"n","m","f">>, !.kind = "cls", !.pos = <<"p">>, !.npd = 1, !.dflt = {<<"p", D("p")>>}, !.api = "register" ]
 SerD == [ Base EXCEPT !.sel = <<"x","Gee">>, !.pos = <<"p","q">>, !.npd = 2, !.vk = TRUE, !.dflt = {<<"p", D("p")>>, <<"q", D("q")>>} ]
 SerE == [ Base EXCEPT !.sel = <<"aa","gee">>, !.pos = <<"p">>, !.npd = 1, !.dflt = {<<"p", D("p")>>} ]
+\* names that differ only in case (the documented order ignores case: ties must still be broken canonically)
+SerE2 == [ Base EXCEPT !.sel = <<"aa","Gee">>, !.pos = <<"p">>, !.npd = 1, !.dflt = {<<"p", D("p")>>}, !.api = "external" ]
 \* two classes of one name in different modules, each with a method of one name; and a class whose method is unique
 SerT1 == [ Base EXCEPT !.sel = <<"x","T">>, !.kind = "cls", !.pos = <<"p">>, !.npd = 1, !.dflt = {<<"p", D("p")>>}, !.api = "register" ]
 SerT2 == [ Base EXCEPT !.sel = <<"aa","T">>, !.kind = "cls", !.pos = <<"p">>, !.npd = 1, !.dflt = {<<"p", D("p")>>}, !.api = "external" ]
 SerM1 == [ Base EXCEPT !.sel = <<"x","T","s">>, !.kind = "meth", !.pos = <<"p">>, !.npd = 1, !.dflt = {<<"p", D("p")>>}, !.api = "register" ]
 SerM2 == [ Base EXCEPT !.sel = <<"aa","T","s">>, !.kind = "meth", !.pos = <<"p","q">>, !.npd = 2, !.dflt = {<<"p", D("p")>>, <<"q", D("q")>>}, !.api = "register" ]
 SerM3 == [ Base EXCEPT !.sel = <<"x","T","u">>, !.kind = "meth", !.pos = <<"q">>, !.npd = 1, !.dflt = {<<"q", D("q")>>}, !.api = "register", !.allow = {"q"} ]
-SerConfs == {SerA, SerB, SerC, SerD, SerE, GinMacro, SerT1, SerT2, SerM1, SerM2, SerM3}
-SerRegs0 == { {SerA, SerB, SerC, SerD, SerE, GinMacro}, {SerA, SerD, GinMacro}, {SerB, SerC, SerE, GinMacro} }
+SerConfs == {SerA, SerB, SerC, SerD, SerE, SerE2, GinMacro, SerT1, SerT2, SerM1, SerM2, SerM3}
+SerRegs0 == { {SerA, SerB, SerC, SerD, SerE, GinMacro}, {SerA, SerD, GinMacro}, {SerB, SerC, SerE, GinMacro}, {SerD, SerE, SerE2, GinMacro} }
 SerRegsM == { {SerA, SerD, GinMacro, SerT1, SerT2, SerM1, SerM2, SerM3}, {SerD, SerE, GinMacro, SerT1, SerM1, SerM3} }
 SerRegs == SerRegs0 \cup SerRegsM
 SerValsM == { L1, N1, R(<<"x","Gee">>, <<>>, "call"), <<"list", <<L1, N1>>>> }
@@ -245,7 +247,7 @@ SerFilter(sc, c, v) ==
   /\ \A r \in Flatten(v) : Tag(r) = "ref" => \E t \in reg : t.sel = r[2]
   /\ \/ (c.sel # <<"gin","macro">> /\ c.sel # <<"x","Gee">>)
      \/ (c.sel = <<"x","Gee">> /\ v \in {L1, L2, N1})
-     \/ (c.sel = <<"gin","macro">> /\ v \in {L1, L2, R(<<"x","Gee">>, <<>>, "call")} /\ Len(sc) = 1)
+     \/ (c.sel = <<"gin","macro">> /\ v \in {L1, L2, N1, R(<<"x","Gee">>, <<>>, "call")} /\ Len(sc) = 1)    \* N1: a macro without literal form
 NamesSer == <<"p", "q", "value", "z">>
 
 ------------------------------------------------------------------------------
